@@ -120,6 +120,10 @@ pub enum ElemKind {
     Tr,
     Bx,
     Zs,
+    /// 16-byte Copy values
+    U128,
+    /// 3-byte Copy values with alignment 1
+    B3,
 }
 
 /// Dimension argument of a constructor.
